@@ -6,7 +6,7 @@
    group: C09_parse_print_roundtrip is the unbounded statement (every well-formed tree of any size and
    depth, printed with only the necessary parentheses, parses back to itself), proved by induction in
    MiluRoundtrip.v for the regenerated ladder, and C09_blank_irrelevant covers every closed filler. *)
-From RP Require Import Base Target MiluSyntax MiluParser MiluDoc C09Proofs RtBlank RtLeaf MiluRoundtrip MiluRoundtripWs.
+From RP Require Import Base Target MiluSyntax MiluParser MiluDoc C09Proofs KwProofs RtBlank RtLeaf MiluRoundtrip MiluRoundtripWs.
 From RP.Gen Require Import Gen_ladder.
 From Coq Require Import String ZArith Lia List.
 Import ListNotations.
@@ -126,3 +126,29 @@ Example C09_roundtrip_example :
   m_wf C09_example_tree /\
   string_of_bytes (m_print C09_example_tree) = "a >= b + 3 ? g ( ! x , y [ 0 ] ) : ( 1 >= 2 ) + r . port"%string.
 Proof. split; [|vm_compute; reflexivity]. vm_compute. intuition (try discriminate; try lia). Qed.
+
+(* ---- keywords end at a word boundary (fix in /repo: `if iface then a else b` is a conditional on the name iface) ---- *)
+
+(* the source matches if / then / else / let / in with keyword(..) and neither rule commits with cut() - regenerated *)
+Theorem C09_keywords_source_shape :
+  Gen_ladder.keywords_word_bounded = true /\ Gen_ladder.keyword_rules_do_not_commit = true.
+Proof. split; reflexivity. Qed.
+Print Assumptions C09_keywords_source_shape.
+
+(* a keyword followed by a letter, digit or underscore is not that keyword, whatever follows ... *)
+Theorem C09_keyword_refuses_longer_word : forall k b r, is_idc b = true -> kw k (k ++ b :: r) = None.
+Proof. exact kw_refuses_longer_word. Qed.
+Print Assumptions C09_keyword_refuses_longer_word.
+
+(* ... and followed by anything else (or nothing) it is *)
+Theorem C09_keyword_accepted_at_boundary : forall k i r,
+  tag k i = Some r -> (match r with b :: _ => is_idc b = false | [] => True end) -> kw k i = Some r.
+Proof. exact kw_tag_nonid. Qed.
+Print Assumptions C09_keyword_accepted_at_boundary.
+
+(* the failing input of the former known finding, and the spelling that used to be read as `if x ...` *)
+Example C09_if_prefixed_condition :
+  KwProofs.parse_doc (bytes_of_string "if iface then a else b"%string)
+  = POk (op3 "If"%string (EId (bytes_of_string "iface"%string)) (EId (bytes_of_string "a"%string)) (EId (bytes_of_string "b"%string))) [] /\
+  KwProofs.parse_doc (bytes_of_string "ifx then a else b"%string) = PErr.
+Proof. split; vm_compute; reflexivity. Qed.
